@@ -5,7 +5,7 @@ from .. import varcommon
 def run(ctx):
     ctx.rule = varcommon.RULE + "; the counting machine (any arrival order, any map iteration order, stable sort, threshold filter) is model-checked against AggOf (Aggregate.tla)"
     ctx.tlc("Aggregate", "MC_Aggregate.cfg", workers=8)
-    varcommon.run(ctx, ["C13-"])
+    varcommon.run(ctx, ["C13-"], extra_vecs=variants_boundary_vectors(ctx))
     snps_part(ctx)
     ctx.assumptions = ["annotation consistent with the genome: every CDS ends in a stop codon of the reference, GenBank /translation and GFF phases are "
                        "computed from the same layout (GFF3 phase semantics)",
@@ -18,9 +18,72 @@ def snps_part(ctx):
     from .. import kernel
     vecs = kernel.tlc_gen(ctx, "GenC03", "GenC03.cfg", tag="snps")
     vecs = [v for v in vecs if v.get("thr", -1) >= 0]
+    vecs += boundary_vectors(ctx)
     vecs += [v for v in kernel.rand_vectors(ctx, "snps", 300 if ctx.quick else 3000) if v.get("thr", -1) >= 0]
     obs = kernel.run_vectors(ctx, "snps", vecs, tag="snps")
     n0 = len(ctx.failures)
     rows, fails, _ = kernel.validate_obs(ctx, "ObsC03", "ObsC03.cfg", obs, tag="snps")
     ctx.failures = ctx.failures[:n0] + [f for f in ctx.failures[n0:] if f["clause"] in ("aggregate", "agg-error", "panic", "timeout")]
     kernel.account(ctx, rows, lambda r: len(r["obs"].get("agg") or []) > 0)
+
+
+def boundary_vectors(ctx):
+    """n sequences, SNP A1C in exactly k of them, A2G in k-1, A3T in k+1, threshold = k/n written with three decimals (exact):
+    every n in a list that makes k/n finite at 3 decimals, several k each - where float(k)/float(n), threshold*n or
+    ceil(threshold*n) could round the wrong way."""
+    import random
+    rng = random.Random(ctx.seed)
+    out = []
+    for n in (4, 5, 8, 10, 20, 25, 40, 50, 100, 125, 200, 250, 500):
+        ks = [k for k in range(1, n) if (k * 1000) % n == 0]
+        if ctx.quick and n > 100:      # every k for n <= 100 (253 vectors); a seed-dependent sample beyond in the quick tier
+            ks = rng.sample(ks, min(len(ks), 6))
+        for k in ks:
+            qs = []
+            for i in range(n):
+                s = ["A", "A", "A"]
+                if i < k:
+                    s[0] = "C"
+                if i < k - 1:
+                    s[1] = "G"
+                if i < k + 1:
+                    s[2] = "T"
+                qs.append(s)
+            rng.shuffle(qs)
+            out.append({"id": "thr-%d-%d" % (k, n), "ref": ["A", "A", "A"], "qs": qs, "hard": False, "lowr": False, "lowq": False,
+                        "wrap": 0, "thr": k * 1000 // n})
+    return out
+
+
+GENOME = "TTGATGGCTAAATAAGGCTCACCCGGGCAT"
+
+
+def variants_boundary_vectors(ctx):
+    """The same boundary for `variants --aggregate`: a mutation carried by exactly k of n sequences, threshold k/n."""
+    import random
+    rng = random.Random(ctx.seed + 7)
+    feats = [{"name": "g1", "kind": "CDS", "named": True, "strand": 1, "segs": [[4, 15]], "cstart": 1, "gbform": 0}]
+
+    def run(agg, thr):
+        return {"cmd": "variants", "anno": "gb", "append": False, "s": -1, "e": -1, "agg": agg, "thr": thr, "t": 2, "stdin": False}
+
+    out = []
+    for n in (20, 50, 100):
+        ks = [k for k in range(1, n) if (k * 1000) % n == 0]
+        if ctx.quick:
+            ks = rng.sample(ks, min(len(ks), 25))
+        for k in ks:
+            qs = []
+            for i in range(n):
+                s = list(GENOME)
+                if i < k:
+                    s[1] = "A"          # nuc:T2A in exactly k sequences
+                if i < k - 1:
+                    s[16] = "C"         # nuc:G17C in k-1
+                if i < k + 1:
+                    s[7] = "G"          # codon 2 GCT -> GGT (aa:g1:A2G) in k+1
+                qs.append(s)
+            rng.shuffle(qs)
+            out.append({"id": "vthr-%d-%d" % (k, n), "kind": "anno", "R": list(GENOME), "qs": qs, "feats": feats,
+                        "runs": [run(False, 0), run(True, k * 1000 // n)]})
+    return out
